@@ -38,6 +38,9 @@ enum Op {
     W,  // rwlock write
     TR, // try_read
     TW, // try_write
+    LH, // lock, hold until every other thread is parked, unlock
+    RH, // read, hold likewise
+    WH, // write, hold likewise
 }
 impl Op {
     fn name(self) -> &'static str {
@@ -48,6 +51,9 @@ impl Op {
             Op::W => "W",
             Op::TR => "r",
             Op::TW => "w",
+            Op::LH => "H",
+            Op::RH => "h",
+            Op::WH => "X",
         }
     }
     fn from_char(c: char) -> Op {
@@ -58,6 +64,9 @@ impl Op {
             'W' => Op::W,
             'r' => Op::TR,
             'w' => Op::TW,
+            'H' => Op::LH,
+            'h' => Op::RH,
+            'X' => Op::WH,
             _ => panic!("bad op {c}"),
         }
     }
@@ -65,7 +74,7 @@ impl Op {
         matches!(self, Op::T | Op::TR | Op::TW)
     }
     fn is_writer(self) -> bool {
-        matches!(self, Op::L | Op::T | Op::W | Op::TW)
+        matches!(self, Op::L | Op::T | Op::W | Op::TW | Op::LH | Op::WH)
     }
 }
 
@@ -174,6 +183,9 @@ impl Model for LockModel {
                     match $g {
                         Some(g) => {
                             cs_enter(tid, $writer);
+                            if matches!(op, Op::LH | Op::RH | Op::WH) {
+                                ilv::hold_until_quiescent();
+                            }
                             let v = g.get();
                             if $writer {
                                 g.set(v + 1);
@@ -195,6 +207,9 @@ impl Model for LockModel {
                     Op::W => body!(Some((*rw).write()), true),
                     Op::TR => body!((*rw).try_read(), false),
                     Op::TW => body!((*rw).try_write(), true),
+                    Op::LH => body!(Some((*m).lock()), true),
+                    Op::RH => body!(Some((*rw).read()), false),
+                    Op::WH => body!(Some((*rw).write()), true),
                 }
             };
             let end = ilv::current_step();
@@ -211,6 +226,9 @@ impl Model for LockModel {
             Some(Op::W) => "write",
             Some(Op::TR) => "try_read",
             Some(Op::TW) => "try_write",
+            Some(Op::LH) => "lock",
+            Some(Op::RH) => "read",
+            Some(Op::WH) => "write",
             None => "?",
         };
         format!("{n}:panic")
@@ -292,21 +310,30 @@ struct Class {
 fn classes(id: &str, thorough: bool) -> Vec<Class> {
     let b = |p, d, w| Budget { p, d, w };
     let mut v = Vec::new();
+    // quick: the canonical schedule (lowest runnable id first, lowest-id wake target) and every single departure from it
+    // (another thread at a forced switch, another wake target, a spurious futex return); thorough: plus one preemption
+    let bud = if thorough { b(1, 1, 0) } else { b(0, 1, 0) };
     let ks: &[usize] = if thorough { &[33, 65, 70, 79] } else { &[65, 70] };
     for &k in ks {
         let k = k.min(ilv::MAX_THREADS - 1);
+        // the first thread takes the lock and holds it until all others are parked, then releases: every schedule of the
+        // wake-up cascade that follows with no preemption and at most one departure from lowest-id-first wake order
         if id == "C01" {
-            let mut p = vec![vec![Op::L]; k + 1];
-            p[k] = vec![Op::T];
-            v.push(Class { desc: format!("{} lockers + 1 try_lock", k), progs: vec![p], budget: b(1, 0, 0) });
+            let mut p = vec![vec![Op::LH]];
+            p.extend(std::iter::repeat(vec![Op::L]).take(k));
+            v.push(Class { desc: format!("holder + {k} parked lockers"), progs: vec![p], budget: bud });
         } else {
-            let mut p = vec![vec![Op::W]];
+            let mut p = vec![vec![Op::WH]];
             p.extend(std::iter::repeat(vec![Op::R]).take(k));
-            v.push(Class { desc: format!("1 writer + {k} readers"), progs: vec![p], budget: b(1, 0, 0) });
-            let mut p = vec![vec![Op::R]];
+            v.push(Class { desc: format!("write holder + {k} parked readers"), progs: vec![p], budget: bud });
+            let mut p = vec![vec![Op::RH]];
             p.extend(std::iter::repeat(vec![Op::W]).take(k / 2));
-            p.extend(std::iter::repeat(vec![Op::R]).take(k - k / 2 - 1));
-            v.push(Class { desc: format!("1 reader first, {} writers, {} readers", k / 2, k - k / 2 - 1), progs: vec![p], budget: b(1, 0, 0) });
+            p.extend(std::iter::repeat(vec![Op::R]).take(k - k / 2));
+            v.push(Class { desc: format!("read holder + {} parked writers + {} parked readers", k / 2, k - k / 2), progs: vec![p], budget: bud });
+            let mut p = vec![vec![Op::WH]];
+            p.extend(std::iter::repeat(vec![Op::W]).take(k / 2));
+            p.extend(std::iter::repeat(vec![Op::R]).take(k - k / 2));
+            v.push(Class { desc: format!("write holder + {} parked writers + {} parked readers", k / 2, k - k / 2), progs: vec![p], budget: bud });
         }
     }
     v
